@@ -3,6 +3,7 @@ package main
 import (
 	"fmt"
 	"sort"
+	"strconv"
 	"strings"
 
 	"verifharness/internal/gc"
@@ -100,6 +101,27 @@ func c09Extra(r *lp.Run, drv *gc.Driver, pkg *gc.Pkg) {
 	} {
 		ans := raw("/b", "", map[string][]string{"Authorization": {a.v}}, accept)
 		expect("basic", map[string]any{"path": "/b", "Authorization": a.v}, ans, a.want)
+	}
+	// (b') the same against the Lean model of findAuthorization (driver tag authz): lists of one to three header
+	// values; what the security handler is handed is what the model extracts
+	authz := [][]string{
+		{"Bearer tok"}, {"bearer  two spaces"}, {"BEARER a b c"}, {"BearerXtok"}, {"Bearer"}, {"Bearer "}, {" Bearer tok"}, {""},
+		{"Basic dTpw", "Bearer second"}, {"BearerXno", "Bearer yes"}, {"Bearer first", "Bearer second"}, {"nospace", "Bearer=no", "bEaReR ok"},
+		{"Bea\u212Aer tok"}, {"Bearer\u00a0tok"}, {"Bearer t\u00f6k"}, {"B\u00e9arer tok"}, {"Bearer\ttok", "Bearer\x00tok"},
+		{"Bearer tok "}, {"Bearer  "}, {"Bearer a=b&c"}, {"bearer Bearer tok"},
+	}
+	for _, vs := range authz {
+		ans := raw("/t", "", map[string][]string{"Authorization": vs}, accept)
+		calls, _ := c09SecCalls(ans)
+		impl := "none"
+		for _, c := range calls {
+			if i := strings.Index(c, "Token="); i >= 0 {
+				if tok, err := strconv.Unquote(strings.TrimSuffix(c[i+len("Token="):], "}")); err == nil {
+					impl = "some:" + c10KeyHex(tok)
+				}
+			}
+		}
+		r.Case("authz", "Bearer "+c10KeysHex(vs), impl, "authz:"+impl[:4], true)
 	}
 	// (c) an alternative that the security handler skips — with the sentinel as it is, and wrapped — does not
 	// stand in the way of another alternative that is met
